@@ -13,6 +13,7 @@ import (
 	"github.com/oasisprotocol/curve25519-voi/curve"
 	"github.com/oasisprotocol/curve25519-voi/curve/scalar"
 	"github.com/oasisprotocol/curve25519-voi/zzverif/gen"
+	"github.com/oasisprotocol/curve25519-voi/zzverif/hist"
 	"github.com/oasisprotocol/curve25519-voi/zzverif/mon"
 	"github.com/oasisprotocol/curve25519-voi/zzverif/ref"
 )
@@ -42,6 +43,7 @@ type ctx struct {
 	r    *mon.Run
 	c    Case
 	pool []gen.KP
+	h    *hist.Pool // receivers with a past (see package hist)
 }
 
 func (x *ctx) check(op string, got *curve.EdwardsPoint, want ref.Pt, detail func() string) {
@@ -77,18 +79,18 @@ func (x *ctx) law(rng *rand.Rand) {
 	d := func() string { return fmt.Sprintf("P=%x(%s) Q=%x(%s)", P.Enc, P.Name, Q.Enc, Q.Name) }
 	lp, lq := rescale(P.Lib, rng), rescale(Q.Lib, rng)
 	x.r.Eval([]byte("law" + string(P.Enc) + string(Q.Enc)))
-	x.try("Add", func() *curve.EdwardsPoint { return curve.NewEdwardsPoint().Add(lp, lq) }, P.Ref.Add(Q.Ref), d)
-	x.try("Sub", func() *curve.EdwardsPoint { return curve.NewEdwardsPoint().Sub(lp, lq) }, P.Ref.Add(Q.Ref.Neg()), d)
-	x.try("Neg", func() *curve.EdwardsPoint { return curve.NewEdwardsPoint().Neg(lp) }, P.Ref.Neg(), d)
-	x.try("Add(P,P)", func() *curve.EdwardsPoint { return curve.NewEdwardsPoint().Add(lp, lp) }, P.Ref.Add(P.Ref), d)
+	x.try("Add", func() *curve.EdwardsPoint { return x.h.E().Add(lp, lq) }, P.Ref.Add(Q.Ref), d)
+	x.try("Sub", func() *curve.EdwardsPoint { return x.h.E().Sub(lp, lq) }, P.Ref.Add(Q.Ref.Neg()), d)
+	x.try("Neg", func() *curve.EdwardsPoint { return x.h.E().Neg(lp) }, P.Ref.Neg(), d)
+	x.try("Add(P,P)", func() *curve.EdwardsPoint { return x.h.E().Add(lp, lp) }, P.Ref.Add(P.Ref), d)
 	x.try("Add(P,-P)", func() *curve.EdwardsPoint {
-		n := curve.NewEdwardsPoint().Neg(lp)
-		return curve.NewEdwardsPoint().Add(lp, n)
+		n := x.h.E().Neg(lp)
+		return x.h.E().Add(lp, n)
 	}, ref.Identity(), d)
-	x.try("MulByCofactor", func() *curve.EdwardsPoint { return curve.NewEdwardsPoint().MulByCofactor(lp) }, P.Ref.Mul(big.NewInt(8)), d)
+	x.try("MulByCofactor", func() *curve.EdwardsPoint { return x.h.E().MulByCofactor(lp) }, P.Ref.Mul(big.NewInt(8)), d)
 	// aliasing: receiver is an operand
-	x.try("Add-aliased", func() *curve.EdwardsPoint { t := curve.NewEdwardsPoint().Set(lp); return t.Add(t, lq) }, P.Ref.Add(Q.Ref), d)
-	x.try("Sub-aliased", func() *curve.EdwardsPoint { t := curve.NewEdwardsPoint().Set(lq); return t.Sub(lp, t) }, P.Ref.Add(Q.Ref.Neg()), d)
+	x.try("Add-aliased", func() *curve.EdwardsPoint { t := x.h.E().Set(lp); return t.Add(t, lq) }, P.Ref.Add(Q.Ref), d)
+	x.try("Sub-aliased", func() *curve.EdwardsPoint { t := x.h.E().Set(lq); return t.Sub(lp, t) }, P.Ref.Add(Q.Ref.Neg()), d)
 	// Sum of n points
 	n := rng.IntN(6)
 	var vals []*curve.EdwardsPoint
@@ -98,14 +100,14 @@ func (x *ctx) law(rng *rand.Rand) {
 		vals = append(vals, e.Lib)
 		want = want.Add(e.Ref)
 	}
-	x.try(fmt.Sprintf("Sum(n=%d)", n), func() *curve.EdwardsPoint { return curve.NewEdwardsPoint().Sum(vals) }, want, d)
+	x.try(fmt.Sprintf("Sum(n=%d)", n), func() *curve.EdwardsPoint { return x.h.E().Sum(vals) }, want, d)
 	// ConditionalSelect
 	for ch := 0; ch < 2; ch++ {
 		w := P.Ref
 		if ch == 1 {
 			w = Q.Ref
 		}
-		x.try("ConditionalSelect", func() *curve.EdwardsPoint { t := curve.NewEdwardsPoint(); t.ConditionalSelect(lp, lq, ch); return t }, w, d)
+		x.try("ConditionalSelect", func() *curve.EdwardsPoint { t := x.h.E(); t.ConditionalSelect(lp, lq, ch); return t }, w, d)
 	}
 	// Equal is the mathematical equality
 	eq := lp.Equal(lq) == 1
@@ -124,18 +126,18 @@ func (x *ctx) single(rng *rand.Rand) {
 	x.r.Eval([]byte("single" + s.String() + s2.String() + string(e.Enc)))
 	lp := rescale(e.Lib, rng)
 	w1 := e.Ref.Mul(s)
-	x.try("Mul", func() *curve.EdwardsPoint { return curve.NewEdwardsPoint().Mul(lp, sc) }, w1, d)
-	x.try("Mul-aliased", func() *curve.EdwardsPoint { t := curve.NewEdwardsPoint().Set(lp); return t.Mul(t, sc) }, w1, d)
+	x.try("Mul", func() *curve.EdwardsPoint { return x.h.E().Mul(lp, sc) }, w1, d)
+	x.try("Mul-aliased", func() *curve.EdwardsPoint { t := x.h.E().Set(lp); return t.Mul(t, sc) }, w1, d)
 	w2 := ref.B.Mul(new(big.Int).Mod(s, ref.L))
 	x.try("MulBasepoint", func() *curve.EdwardsPoint {
-		return curve.NewEdwardsPoint().MulBasepoint(curve.ED25519_BASEPOINT_TABLE, sc)
+		return x.h.E().MulBasepoint(curve.ED25519_BASEPOINT_TABLE, sc)
 	}, w2, d)
 	w3 := w1.Add(ref.B.Mul(new(big.Int).Mod(s2, ref.L)))
 	x.try("DoubleScalarMulBasepointVartime", func() *curve.EdwardsPoint {
-		return curve.NewEdwardsPoint().DoubleScalarMulBasepointVartime(sc, lp, sc2)
+		return x.h.E().DoubleScalarMulBasepointVartime(sc, lp, sc2)
 	}, w3, d)
 	x.try("ExpandedDoubleScalarMulBasepointVartime", func() *curve.EdwardsPoint {
-		return curve.NewEdwardsPoint().ExpandedDoubleScalarMulBasepointVartime(sc, e.Exp, sc2)
+		return x.h.E().ExpandedDoubleScalarMulBasepointVartime(sc, e.Exp, sc2)
 	}, w3, d)
 	if rng.IntN(4) == 0 {
 		x.try("NewEdwardsBasepointTable(P).Mul", func() *curve.EdwardsPoint {
@@ -143,56 +145,78 @@ func (x *ctx) single(rng *rand.Rand) {
 			if !bytes.Equal(enc(tbl.Basepoint()), e.Enc) {
 				x.r.Violate("group/BasepointTable.Basepoint", "Basepoint() of a custom table differs from its base; "+d(), x.c)
 			}
-			return curve.NewEdwardsPoint().MulBasepoint(tbl, sc)
+			return x.h.E().MulBasepoint(tbl, sc)
 		}, w1, d)
 	}
-	x.try("SetExpanded", func() *curve.EdwardsPoint { return curve.NewEdwardsPoint().SetExpanded(e.Exp) }, e.Ref, d)
+	x.try("SetExpanded", func() *curve.EdwardsPoint { return x.h.E().SetExpanded(e.Exp) }, e.Ref, d)
+	// an expansion whose object used to be the expansion of another point, a value copy of which is still in use:
+	// both must keep standing for their own point in every routine that consumes expansions
+	{
+		xq, oldCopy, oldPoint := x.h.XE(lp)
+		oldRef := ref.Decode(enc(oldPoint)).Pt
+		for _, t := range []struct {
+			name string
+			xp   *curve.ExpandedEdwardsPoint
+			pt   ref.Pt
+		}{{"re-targeted expansion", xq, e.Ref}, {"value copy taken before re-targeting", oldCopy, oldRef}} {
+			t := t
+			wd := t.pt.Mul(s).Add(ref.B.Mul(new(big.Int).Mod(s2, ref.L)))
+			x.try("ExpandedDoubleScalarMulBasepointVartime("+t.name+")", func() *curve.EdwardsPoint {
+				return x.h.E().ExpandedDoubleScalarMulBasepointVartime(sc, t.xp, sc2)
+			}, wd, d)
+			x.try("ExpandedMultiscalarMulVartime("+t.name+")", func() *curve.EdwardsPoint {
+				return x.h.E().ExpandedMultiscalarMulVartime([]*scalar.Scalar{sc}, []*curve.ExpandedEdwardsPoint{t.xp}, []*scalar.Scalar{sc2}, []*curve.EdwardsPoint{curve.ED25519_BASEPOINT_POINT})
+			}, wd, d)
+			x.try("SetExpanded("+t.name+")", func() *curve.EdwardsPoint { return x.h.E().SetExpanded(t.xp) }, t.pt, d)
+			x.try("Expanded.Point("+t.name+")", func() *curve.EdwardsPoint { return t.xp.Point() }, t.pt, d)
+		}
+	}
 	// multiscalar with one and two terms must agree as well
 	x.try("MultiscalarMul(1)", func() *curve.EdwardsPoint {
-		return curve.NewEdwardsPoint().MultiscalarMul([]*scalar.Scalar{sc}, []*curve.EdwardsPoint{lp})
+		return x.h.E().MultiscalarMul([]*scalar.Scalar{sc}, []*curve.EdwardsPoint{lp})
 	}, w1, d)
 	x.try("MultiscalarMulVartime(2)", func() *curve.EdwardsPoint {
-		return curve.NewEdwardsPoint().MultiscalarMulVartime([]*scalar.Scalar{sc, sc2}, []*curve.EdwardsPoint{lp, curve.ED25519_BASEPOINT_POINT})
+		return x.h.E().MultiscalarMulVartime([]*scalar.Scalar{sc, sc2}, []*curve.EdwardsPoint{lp, curve.ED25519_BASEPOINT_POINT})
 	}, w3, d)
 	// receiver aliases an input point of a multi-term operation
 	x.try("MultiscalarMul(receiver aliases points[0])", func() *curve.EdwardsPoint {
-		acc := curve.NewEdwardsPoint().Set(lp)
+		acc := x.h.E().Set(lp)
 		return acc.MultiscalarMul([]*scalar.Scalar{sc, sc2}, []*curve.EdwardsPoint{acc, curve.ED25519_BASEPOINT_POINT})
 	}, w3, d)
 	x.try("MultiscalarMul(receiver aliases points[1])", func() *curve.EdwardsPoint {
-		acc := curve.NewEdwardsPoint().Set(lp)
+		acc := x.h.E().Set(lp)
 		return acc.MultiscalarMul([]*scalar.Scalar{sc2, sc}, []*curve.EdwardsPoint{curve.ED25519_BASEPOINT_POINT, acc})
 	}, w3, d)
 	x.try("MultiscalarMulVartime(receiver aliases a point)", func() *curve.EdwardsPoint {
-		acc := curve.NewEdwardsPoint().Set(lp)
+		acc := x.h.E().Set(lp)
 		return acc.MultiscalarMulVartime([]*scalar.Scalar{sc, sc2}, []*curve.EdwardsPoint{acc, curve.ED25519_BASEPOINT_POINT})
 	}, w3, d)
 	x.try("DoubleScalarMulBasepointVartime(receiver aliases A)", func() *curve.EdwardsPoint {
-		acc := curve.NewEdwardsPoint().Set(lp)
+		acc := x.h.E().Set(lp)
 		return acc.DoubleScalarMulBasepointVartime(sc, acc, sc2)
 	}, w3, d)
 	x.try("ExpandedMultiscalarMulVartime(receiver aliases a dynamic point)", func() *curve.EdwardsPoint {
-		acc := curve.NewEdwardsPoint().Set(lp)
+		acc := x.h.E().Set(lp)
 		return acc.ExpandedMultiscalarMulVartime([]*scalar.Scalar{sc2}, []*curve.ExpandedEdwardsPoint{curve.NewExpandedEdwardsPoint(curve.ED25519_BASEPOINT_POINT)}, []*scalar.Scalar{sc}, []*curve.EdwardsPoint{acc})
 	}, w3, d)
 	x.try("Sum(receiver among the values)", func() *curve.EdwardsPoint {
-		acc := curve.NewEdwardsPoint().Set(lp)
+		acc := x.h.E().Set(lp)
 		return acc.Sum([]*curve.EdwardsPoint{acc, curve.ED25519_BASEPOINT_POINT, acc})
 	}, e.Ref.Add(e.Ref).Add(ref.B), d)
-	x.try("MulByCofactor-aliased", func() *curve.EdwardsPoint { t := curve.NewEdwardsPoint().Set(lp); return t.MulByCofactor(t) }, e.Ref.Mul(big.NewInt(8)), d)
-	x.try("Neg-aliased", func() *curve.EdwardsPoint { t := curve.NewEdwardsPoint().Set(lp); return t.Neg(t) }, e.Ref.Neg(), d)
+	x.try("MulByCofactor-aliased", func() *curve.EdwardsPoint { t := x.h.E().Set(lp); return t.MulByCofactor(t) }, e.Ref.Mul(big.NewInt(8)), d)
+	x.try("Neg-aliased", func() *curve.EdwardsPoint { t := x.h.E().Set(lp); return t.Neg(t) }, e.Ref.Neg(), d)
 	// the exported constant objects themselves as operands (their extended coordinates, incl. T, are consumed)
 	ti := rng.IntN(8)
 	tref := ref.Decode(enc(curve.EIGHT_TORSION[ti])).Pt
-	x.try(fmt.Sprintf("Add(P, EIGHT_TORSION[%d])", ti), func() *curve.EdwardsPoint { return curve.NewEdwardsPoint().Add(lp, curve.EIGHT_TORSION[ti]) }, e.Ref.Add(tref), d)
-	x.try(fmt.Sprintf("Sub(EIGHT_TORSION[%d], P)", ti), func() *curve.EdwardsPoint { return curve.NewEdwardsPoint().Sub(curve.EIGHT_TORSION[ti], lp) }, tref.Add(e.Ref.Neg()), d)
-	x.try("Add(ED25519_BASEPOINT_POINT, P)", func() *curve.EdwardsPoint { return curve.NewEdwardsPoint().Add(curve.ED25519_BASEPOINT_POINT, lp) }, ref.B.Add(e.Ref), d)
-	x.try("Mul(EIGHT_TORSION[i], s)", func() *curve.EdwardsPoint { return curve.NewEdwardsPoint().Mul(curve.EIGHT_TORSION[ti], sc) }, tref.Mul(s), d)
+	x.try(fmt.Sprintf("Add(P, EIGHT_TORSION[%d])", ti), func() *curve.EdwardsPoint { return x.h.E().Add(lp, curve.EIGHT_TORSION[ti]) }, e.Ref.Add(tref), d)
+	x.try(fmt.Sprintf("Sub(EIGHT_TORSION[%d], P)", ti), func() *curve.EdwardsPoint { return x.h.E().Sub(curve.EIGHT_TORSION[ti], lp) }, tref.Add(e.Ref.Neg()), d)
+	x.try("Add(ED25519_BASEPOINT_POINT, P)", func() *curve.EdwardsPoint { return x.h.E().Add(curve.ED25519_BASEPOINT_POINT, lp) }, ref.B.Add(e.Ref), d)
+	x.try("Mul(EIGHT_TORSION[i], s)", func() *curve.EdwardsPoint { return x.h.E().Mul(curve.EIGHT_TORSION[ti], sc) }, tref.Mul(s), d)
 	x.try("Basepoint() of the shared table, then used as a receiver", func() *curve.EdwardsPoint {
 		p := curve.ED25519_BASEPOINT_TABLE.Basepoint()
 		p.Neg(p)
 		p.Add(p, p)
-		return curve.NewEdwardsPoint().Set(curve.ED25519_BASEPOINT_POINT) // the constant must be untouched
+		return x.h.E().Set(curve.ED25519_BASEPOINT_POINT) // the constant must be untouched
 	}, ref.B, d)
 	graftSingle(x, rng, e, lp, s, s2, sc, sc2, w1, w2, w3, d)
 
@@ -212,32 +236,32 @@ func (x *ctx) single(rng *rand.Rand) {
 					x.r.Violate("group/"+name, fmt.Sprintf("panic=%v %s; %s", pan, msg, d()), x.c)
 				}
 			}
-			rchk("Ristretto.Mul", func() *curve.RistrettoPoint { return curve.NewRistrettoPoint().Mul(rp, sc) }, kB(ek))
+			rchk("Ristretto.Mul", func() *curve.RistrettoPoint { return x.h.R().Mul(rp, sc) }, kB(ek))
 			rchk("Ristretto.MulBasepoint", func() *curve.RistrettoPoint {
-				return curve.NewRistrettoPoint().MulBasepoint(curve.RISTRETTO_BASEPOINT_TABLE, sc)
+				return x.h.R().MulBasepoint(curve.RISTRETTO_BASEPOINT_TABLE, sc)
 			}, kB(sm))
 			rchk("Ristretto.DoubleScalarMulBasepointVartime", func() *curve.RistrettoPoint {
-				return curve.NewRistrettoPoint().DoubleScalarMulBasepointVartime(sc, rp, sc2)
+				return x.h.R().DoubleScalarMulBasepointVartime(sc, rp, sc2)
 			}, kB(new(big.Int).Add(ek, s2m)))
 			rchk("Ristretto.ExpandedDoubleScalarMulBasepointVartime", func() *curve.RistrettoPoint {
-				return curve.NewRistrettoPoint().ExpandedDoubleScalarMulBasepointVartime(sc, curve.NewExpandedRistrettoPoint(rp), sc2)
+				return x.h.R().ExpandedDoubleScalarMulBasepointVartime(sc, curve.NewExpandedRistrettoPoint(rp), sc2)
 			}, kB(new(big.Int).Add(ek, s2m)))
 			rchk("Ristretto.Sum(receiver among the values)", func() *curve.RistrettoPoint {
-				acc := curve.NewRistrettoPoint().Set(rp)
+				acc := x.h.R().Set(rp)
 				return acc.Sum([]*curve.RistrettoPoint{acc, curve.RISTRETTO_BASEPOINT_POINT, acc})
 			}, kB(new(big.Int).Add(new(big.Int).Lsh(e.K, 1), big.NewInt(1))))
 			rchk("Ristretto.MultiscalarMul(receiver aliases a point)", func() *curve.RistrettoPoint {
-				acc := curve.NewRistrettoPoint().Set(rp)
+				acc := x.h.R().Set(rp)
 				return acc.MultiscalarMul([]*scalar.Scalar{sc, sc2}, []*curve.RistrettoPoint{acc, curve.RISTRETTO_BASEPOINT_POINT})
 			}, kB(new(big.Int).Add(ek, s2m)))
 			rchk("Ristretto.Add/Neg/Sub", func() *curve.RistrettoPoint {
-				n := curve.NewRistrettoPoint().Neg(rp)
-				t := curve.NewRistrettoPoint().Add(rp, rp)
+				n := x.h.R().Neg(rp)
+				t := x.h.R().Add(rp, rp)
 				return t.Sub(t, n) // 3P
 			}, kB(new(big.Int).Mul(e.K, big.NewInt(3))))
 			if rng.IntN(4) == 0 {
 				rchk("NewRistrettoBasepointTable(P).Mul", func() *curve.RistrettoPoint {
-					return curve.NewRistrettoPoint().MulBasepoint(curve.NewRistrettoBasepointTable(rp), sc)
+					return x.h.R().MulBasepoint(curve.NewRistrettoBasepointTable(rp), sc)
 				}, kB(ek))
 			}
 		}
@@ -301,13 +325,28 @@ func (x *ctx) msm(rng *rand.Rand, size int) {
 	want := ref.B.Mul(new(big.Int).Mod(sumK, ref.L)).Add(gen.Tors[new(big.Int).Mod(sumJ, big.NewInt(8)).Int64()])
 	d := func() string { return fmt.Sprintf("size=%d", size) }
 	x.r.Eval([]byte(fmt.Sprintf("msm%d/%s", size, x.c.Stream)))
-	x.try(fmt.Sprintf("MultiscalarMulVartime(n=%d)", size), func() *curve.EdwardsPoint { return curve.NewEdwardsPoint().MultiscalarMulVartime(scalars, points) }, want, d)
-	if size <= 200 || !x.r.Quick {
-		x.try(fmt.Sprintf("MultiscalarMul(n=%d)", size), func() *curve.EdwardsPoint { return curve.NewEdwardsPoint().MultiscalarMul(scalars, points) }, want, d)
+	x.try(fmt.Sprintf("MultiscalarMulVartime(n=%d)", size), func() *curve.EdwardsPoint { return x.h.E().MultiscalarMulVartime(scalars, points) }, want, d)
+	x.try(fmt.Sprintf("MultiscalarMul(n=%d)", size), func() *curve.EdwardsPoint { return x.h.E().MultiscalarMul(scalars, points) }, want, d)
+	if size > 0 {
+		// the receiver is one of the input points (first, middle, last), at every size
+		for _, j := range []int{0, size / 2, size - 1} {
+			mk := func() (*curve.EdwardsPoint, []*curve.EdwardsPoint) {
+				acc := x.h.E().Set(points[j])
+				pts := append([]*curve.EdwardsPoint{}, points...)
+				pts[j] = acc
+				return acc, pts
+			}
+			x.try(fmt.Sprintf("MultiscalarMul(n=%d, receiver = points[%s])", size, pos(j, size)), func() *curve.EdwardsPoint { acc, pts := mk(); return acc.MultiscalarMul(scalars, pts) }, want, d)
+			x.try(fmt.Sprintf("MultiscalarMulVartime(n=%d, receiver = points[%s])", size, pos(j, size)), func() *curve.EdwardsPoint { acc, pts := mk(); return acc.MultiscalarMulVartime(scalars, pts) }, want, d)
+			x.try(fmt.Sprintf("ExpandedMultiscalarMulVartime(n=%d, receiver = dynamic points[%s])", size, pos(j, size)), func() *curve.EdwardsPoint {
+				acc, pts := mk()
+				return acc.ExpandedMultiscalarMulVartime(scalars[:j], exps[:j], scalars[j:], pts[j:])
+			}, want, d)
+		}
 	}
 	for _, split := range []int{0, size / 2, size, rng.IntN(size + 1)} {
 		x.try(fmt.Sprintf("ExpandedMultiscalarMulVartime(n=%d)", size), func() *curve.EdwardsPoint {
-			return curve.NewEdwardsPoint().ExpandedMultiscalarMulVartime(scalars[:split], exps[:split], scalars[split:], points[split:])
+			return x.h.E().ExpandedMultiscalarMulVartime(scalars[:split], exps[:split], scalars[split:], points[split:])
 		}, want, func() string { return fmt.Sprintf("size=%d split=%d", size, split) })
 	}
 	// Ristretto multiscalar on the terms whose torsion component lies in E[4] (valid Ristretto
@@ -331,8 +370,8 @@ func (x *ctx) msm(rng *rand.Rand, size int) {
 		if len(rps) > 0 || size == 0 {
 			wantR := ref.RistrettoEncode(ref.B.Mul(new(big.Int).Mod(rk, ref.L)))
 			for name, f := range map[string]func() *curve.RistrettoPoint{
-				"Ristretto.MultiscalarMul":        func() *curve.RistrettoPoint { return curve.NewRistrettoPoint().MultiscalarMul(rsc, rps) },
-				"Ristretto.MultiscalarMulVartime": func() *curve.RistrettoPoint { return curve.NewRistrettoPoint().MultiscalarMulVartime(rsc, rps) },
+				"Ristretto.MultiscalarMul":        func() *curve.RistrettoPoint { return x.h.R().MultiscalarMul(rsc, rps) },
+				"Ristretto.MultiscalarMulVartime": func() *curve.RistrettoPoint { return x.h.R().MultiscalarMulVartime(rsc, rps) },
 			} {
 				var got *curve.RistrettoPoint
 				pan, msg := mon.Try(func() { got = f() })
@@ -345,6 +384,16 @@ func (x *ctx) msm(rng *rand.Rand, size int) {
 		}
 	}
 	graftMsm(x, size, scalars, points, exps, want)
+}
+
+func pos(j, size int) string {
+	switch {
+	case j == 0:
+		return "first"
+	case j == size-1:
+		return "last"
+	}
+	return "middle"
 }
 
 // msmUnknown: points with unknown discrete logarithm, direct reference summation.
@@ -361,14 +410,15 @@ func (x *ctx) msmUnknown(rng *rand.Rand, size int) {
 	}
 	d := func() string { return fmt.Sprintf("size=%d", size) }
 	x.r.Eval([]byte(fmt.Sprintf("msmu%d/%s", size, x.c.Stream)))
-	x.try("MultiscalarMulVartime(unknown-dlog)", func() *curve.EdwardsPoint { return curve.NewEdwardsPoint().MultiscalarMulVartime(scalars, points) }, want, d)
-	x.try("MultiscalarMul(unknown-dlog)", func() *curve.EdwardsPoint { return curve.NewEdwardsPoint().MultiscalarMul(scalars, points) }, want, d)
+	x.try("MultiscalarMulVartime(unknown-dlog)", func() *curve.EdwardsPoint { return x.h.E().MultiscalarMulVartime(scalars, points) }, want, d)
+	x.try("MultiscalarMul(unknown-dlog)", func() *curve.EdwardsPoint { return x.h.E().MultiscalarMul(scalars, points) }, want, d)
 	graftMsm(x, size, scalars, points, nil, want)
 }
 
 func runCase(r *mon.Run, c Case, pool []gen.KP) {
 	rng := r.Rng(c.Stream)
-	x := &ctx{r: r, c: c, pool: pool}
+	x := &ctx{r: r, c: c, pool: pool, h: hist.New(r.Rng(c.Stream + "/receivers"))}
+	defer func() { r.HistN("receivers-with-a-past", x.h.Uses) }()
 	switch c.Kind {
 	case "law":
 		for i := 0; i < 20; i++ {
@@ -404,9 +454,9 @@ func main() {
 		cases = append(cases, Case{Kind: "single", Stream: fmt.Sprintf("c03/single/%d", i)})
 	}
 	sizes := []int{0, 1, 2, 3, 8, 93, 94, 95, 189, 190, 191}
-	big1 := []int{500, 800}
+	big1 := []int{500, 800, 1025, 1500}
 	if !r.Quick {
-		big1 = []int{499, 500, 501, 799, 800, 801, 1000}
+		big1 = []int{499, 500, 501, 799, 800, 801, 1000, 1023, 1024, 1025, 1500, 2047, 2048, 2049, 4097}
 	}
 	for rep := 0; rep < r.Pick(3, 20); rep++ {
 		for _, s := range sizes {
